@@ -233,37 +233,113 @@ def _ok_blocks(fn):
 
 
 def _errs_from(fn, starts):
-    """names of the result variants assigned to _0 on paths from the given blocks (Err(X) -> X, Ok -> 'Ok')"""
+    """names of the result variants assigned to _0 on paths from the given blocks (Err(X) -> X, Ok -> 'Ok').
+    Path-sensitive for Result/Option literals that flow through `?` on the way (the shape a helper's
+    `return Err(X)` takes once the helper is analysed in its caller's context): a local known to hold Err(X) makes
+    `Try::branch` take its Break edge only, and the following from_residual return counts as Err(X)."""
     errs = set()
     seen = set()
-    st = list(starts)
-    while st:
-        b = st.pop()
-        if b in seen:
-            continue
-        seen.add(b)
-        stop = False
-        for si, s in enumerate(fn.blocks[b]['stmts']):
-            if s['k'] == 'assign' and s['place']['l'] == 0 and not s['place']['p'] and s['rv']['k'] == 'agg':
-                for n in fn.rvalue_terms(s['rv'], (b, si)):
+    st = [(b, ()) for b in starts]
+
+    def lit_kind(rv, pt):
+        if rv['k'] != 'agg' or rv.get('agg') != 'adt':
+            return None
+        vn = rv.get('variant_name')
+        if vn in ('Err', 'None'):
+            names = set()
+            if vn == 'Err':
+                for n in fn.rvalue_terms(rv, pt):
                     if n[0] == 'agg' and n[2] == 'Err':
                         for m in n[3][0][1]:
-                            errs.add(m[2] if m[0] == 'agg' else '?')
-                    elif n[0] == 'agg' and n[2] == 'Ok':
-                        errs.add('Ok')
-                stop = True
-                break
+                            names.add(m[2] if m[0] == 'agg' else '?')
+            return ('res', frozenset(names) if names else frozenset(['None' if vn == 'None' else '?']))
+        if vn in ('Ok', 'Some'):
+            return ('ok', frozenset())
+        return None
+
+    while st:
+        b, kn = st.pop()
+        if (b, kn) in seen:
+            continue
+        seen.add((b, kn))
+        known = dict(kn)
+        stop = False
+        for si, s in enumerate(fn.blocks[b]['stmts']):
+            if s['k'] != 'assign':
+                continue
+            pl, rv = s['place'], s['rv']
+            if pl['l'] == 0 and not pl['p']:
+                if rv['k'] == 'agg':
+                    for n in fn.rvalue_terms(rv, (b, si)):
+                        if n[0] == 'agg' and n[2] == 'Err':
+                            for m in n[3][0][1]:
+                                errs.add(m[2] if m[0] == 'agg' else '?')
+                        elif n[0] == 'agg' and n[2] == 'Ok':
+                            errs.add('Ok')
+                    stop = True
+                    break
+                if rv['k'] == 'use':
+                    src = rv['op'].get('move') or rv['op'].get('copy')
+                    if src is not None and not src['p'] and src['l'] in known:
+                        k = known[src['l']]
+                        errs.update(k[1] if k[0] == 'res' else ['Ok'])
+                        stop = True
+                        break
+            if pl['p']:
+                continue
+            lk = lit_kind(rv, (b, si))
+            if lk is not None:
+                known[pl['l']] = lk
+            elif rv['k'] == 'use' and (rv['op'].get('move') or rv['op'].get('copy')) is not None:
+                src = rv['op'].get('move') or rv['op'].get('copy')
+                if src['l'] in known and not src['p']:
+                    known[pl['l']] = known[src['l']]
+                elif src['l'] in known and known[src['l']][0] in ('branch-res',) and src['p']:
+                    known[pl['l']] = ('res', known[src['l']][1])       # the residual moved out of Break(..)
+                else:
+                    known.pop(pl['l'], None)
+            elif rv['k'] == 'discr' and not rv['place']['p'] and rv['place']['l'] in known:
+                k = known[rv['place']['l']]
+                if k[0] in ('branch-res', 'branch-ok'):
+                    known[pl['l']] = ('disc', k[0])
+                elif k[0] in ('res', 'ok'):
+                    known[pl['l']] = ('disc-lit', k[0])
+                else:
+                    known.pop(pl['l'], None)
+            else:
+                known.pop(pl['l'], None)
         if stop:
             continue
         t = fn.blocks[b]['term']
         if t['k'] == 'return':
             errs.add('fallthrough')
             continue
-        if t['k'] == 'call' and t['dest']['l'] == 0 and not t['dest']['p']:
-            errs.add('call:' + str(t['func'].get('path')))
-            continue
-        for s in fn.succs(b):
-            st.append(s)
+        if t['k'] == 'call':
+            path = t['func'].get('path')
+            a0 = (t['args'][0].get('move') or t['args'][0].get('copy')) if t['args'] else None
+            ka = known.get(a0['l']) if a0 is not None and not a0['p'] else None
+            if t['dest']['l'] == 0 and not t['dest']['p']:
+                if path == 'std::ops::FromResidual::from_residual' and ka is not None and ka[0] == 'res':
+                    errs.update(ka[1])
+                else:
+                    errs.add('call:' + str(path))
+                continue
+            if not t['dest']['p']:
+                if path == 'std::ops::Try::branch' and ka is not None and ka[0] in ('res', 'ok'):
+                    known[t['dest']['l']] = ('branch-res' if ka[0] == 'res' else 'branch-ok', ka[1])
+                else:
+                    known.pop(t['dest']['l'], None)
+        nxt = fn.succs(b)
+        if t['k'] == 'switch':
+            d = t['discr'].get('move') or t['discr'].get('copy')
+            k = known.get(d['l']) if d is not None and not d['p'] else None
+            if k is not None and k[0] == 'disc':
+                want = '1' if k[1] == 'branch-res' else '0'        # ControlFlow::Continue = 0, Break = 1
+                tm = {str(v): tg for v, tg in t['targets']}
+                nxt = [tm[want]] if want in tm else [t['otherwise']]
+        kn2 = tuple(sorted(known.items()))
+        for s in nxt:
+            st.append((s, kn2))
     return errs
 
 
